@@ -63,7 +63,12 @@ def clause_case(draw):
         clear = True
     return {'text': ledgergen.render(desc), 'open': open_, 'close': close, 'clear': clear,
             'filter': draw(st.none() | st.none() | FROM_PREDICATES), 'forms': draw(st.integers(0, 2)) == 0,
-            'warm': draw(st.lists(st.sampled_from(['plain', 'toggle-clear', 'no-open', 'entries']), max_size=2))}
+            'warm': draw(st.lists(st.sampled_from(['plain', 'toggle-clear', 'no-open', 'entries']), max_size=2)),
+            'nested': draw(st.none() | st.none() | st.fixed_dictionaries({
+                'open': st.none() | pick, 'close': st.none() | st.just(True) | pick, 'clear': st.booleans(),
+                'filter': st.none() | FROM_PREDICATES}).filter(
+                    lambda n: not (n['open'] and isinstance(n['close'], datetime.date) and n['close'] < n['open'])
+                    and (n['open'] or n['close'] or n['clear'] or n['filter'])))}
 
 
 def clause_text(case, with_filter=False):
@@ -184,6 +189,27 @@ def prop_clauses(sh, case):
             want_f = [key(x) for x in rows if pred_py(case['filter'], x[7], next(p for p in x[7].postings if p.account == x[4]))]
             if [key(x) for x in rf[2]] != want_f:
                 fails.append(('filter-order', f'FROM {clause_text(case, True)}: {len(rf[2])} rows, filtering the unfiltered result gives {len(want_f)}'))
+    # a sub-select with its own FROM clauses inside this statement: each FROM clause stands on its own
+    if case.get('nested') is not None:
+        from beanquery.parser import ast as A
+        inner_case = dict(case, **case['nested'])
+        inner = A.Select([A.Target(A.Column('account'), None)], from_ast(inner_case, True), None, None, None, None, None, None)
+        ri = harness.engine(conn, inner)
+        if ri[0] == 'ok':
+            accounts = sorted({a for (a,) in ri[2]})
+            outer_nested = select_ast(case)
+            outer_nested.where_clause = A.In(A.Column('account'), inner)
+            outer_literal = select_ast(case)
+            outer_literal.where_clause = A.In(A.Column('account'), A.Constant(accounts))
+            rn, rl = harness.engine(conn, outer_nested), harness.engine(conn, outer_literal)
+            key = lambda x: (x[0], x[1], x[2], x[3], x[4], x[5], x[6])  # noqa: E731
+            if rn[0] != 'ok' or rl[0] != 'ok':
+                bad = rn if rn[0] != 'ok' else rl
+                fails.append((exc_sig(bad[1], 'nested:raises'), f'FROM {clause} WHERE account IN (SELECT account FROM {clause_text(inner_case, True)}): {bad[1]!r}'))
+            elif [key(x) for x in rn[2]] != [key(x) for x in rl[2]]:
+                fails.append(('nested-from-clauses', f'FROM {clause} WHERE account IN (SELECT account FROM {clause_text(inner_case, True)}): '
+                              f'{len(rn[2])} rows, with the sub-select evaluated on its own {len(rl[2])} ({accounts})'))
+            sh.count('nested_subselect')
     # other statement forms over the same clauses (on a third of the cases: they re-parse templates)
     if not case.get('forms', True):
         return finish(sh, case, fails, originals, rows, d, e)
